@@ -62,7 +62,7 @@ def gen_pair(rng, tier):
     if rng.random() < 0.12:
         top = 90       # a few larger diagrams: size-dependent behaviour (chunking, truncation) must not hide
     big = rng.random() < (0.012 if tier == "quick" else 0.02)
-    style = str(rng.choice(["reorder", "jitter", "indep", "disjoint", "empty", "neardiag", "grid", "repaired"]))
+    style = str(rng.choice(["reorder", "jitter", "indep", "disjoint", "empty", "neardiag", "grid", "repaired", "mirror"]))
     scale = float(rng.choice([1e-2, 0.1, 1, 1, 1, 10, 1e2, 1e-9, 1e-6, 1e6]))
     m = int(rng.integers(1, top + 1))
     if big:         # sizes around and above 128 / 256 (block sizes of vectorised implementations)
@@ -78,6 +78,17 @@ def gen_pair(rng, tier):
         # same multiset of births and same multiset of deaths, paired differently: a different diagram at a positive distance
         F = gen.diagram(rng, m, str(rng.choice(["grid", "dyadic", "float"])), scale)
         G = gen.repaired(rng, F)
+    elif style == "mirror":
+        # points on both sides of the diagonal (extended persistence, swapped pairs): G holds near-mirror images (death, birth) of
+        # points of F, with lifetimes that are large against sqrt(sigma) - the kernel's mirrored term is then the only one that counts
+        m = int(rng.integers(1, 6))
+        b = rng.uniform(0, 30, m); pers = rng.uniform(15, 90, m)
+        F = np.column_stack([b, b + pers]) * scale
+        G = F[:, ::-1] + rng.normal(0, float(rng.choice([0.0, 0.05, 0.5])) * scale, F.shape)
+        if rng.random() < 0.5:
+            G = np.vstack([G, gen.diagram(rng, int(rng.integers(0, 4)), "float", scale)])
+        if rng.random() < 0.3:
+            F = np.vstack([F, F[:1, ::-1]])          # a class and its mirror image inside one diagram
     elif style == "indep":
         G = gen.diagram(rng, int(rng.integers(1, top + 1)), None, scale)
     elif style == "disjoint":
@@ -100,6 +111,8 @@ def gen_pair(rng, tier):
         else:
             G = gen.entangle(rng, F, gen.specialize(rng, G, scale))
     sigma = float(rng.choice([0.01, 0.1, 0.4, 0.4, 1.0, 10.0, 2.0, 3.0])) * (scale ** 2 if rng.random() < 0.5 else 1.0)
+    if style == "mirror":
+        sigma = float(rng.choice([0.01, 0.1, 0.4])) * scale ** 2
     return F, G, sigma, scale, style
 
 
@@ -233,7 +246,7 @@ def run_case(ctx, k, rng):
             lip = (len(F) + len(G)) * 4e-16 * (sc + abs(s)) / (4 * sigma * math.sqrt(math.pi))
             ok = fin(v2) and abs(v2 - v) <= lip + math.sqrt(tol2) + math.sqrt(t2)
             ctx.check("diagonal translation", ok, got=v2, base=v, shift=s)
-        else:
+        elif style != "mirror":      # (the Wasserstein distance is defined on or above the diagonal only)
             ctx.ran()
             w1 = float(wasserstein(F, G))
             wtol = 1e-7 * scale_of(F, G) * (len(F) + len(G) + 1)
